@@ -13,7 +13,11 @@ from . import kernel
 
 VERIF = os.path.dirname(os.path.dirname(os.path.abspath(__file__)))
 REPLAYS = os.path.join(VERIF, 'replays')
+# evidence is only written under /verif/evidence by a plain check of the tree as it is: surveys, mutant trials and
+# other experiments (VERIF_SURVEY / VERIF_SCRATCH_EVIDENCE) write to a scratch directory instead
 EVIDENCE = os.path.join(VERIF, 'evidence')
+if os.environ.get('VERIF_SURVEY') or os.environ.get('VERIF_SCRATCH_EVIDENCE'):
+    EVIDENCE = os.environ.get('VERIF_SCRATCH_EVIDENCE') or '/tmp/supvsim-scratch-evidence'
 
 ASSUMPTIONS = [
     'real code: supvisors.* of /repo working tree (plugin entry point, FSM, context, state-modes, starter/stopper, '
